@@ -29,10 +29,7 @@ Proof.
   - apply IH; [exact Ha' | exact Hb | intros x Hx; apply Hd; right; exact Hx].
 Qed.
 
-Section Loop.
-Context {T : Type} (N : Num T).
-
-(* node numbering is sound: internal indices are pairwise distinct and differ from the leaf indices *)
+(* ---- generic: a loop whose update combines the two children's entries computes the fold over the tree ---- *)
 Definition wfi (t : itree) : Prop :=
   NoDup (iinternals t) /\ forall x, In x (iinternals t) -> ~ In x (ileaves t).
 
@@ -74,17 +71,29 @@ Lemma loop_app {A} (u : (nat -> A) -> nat -> nat -> nat -> A) p q a :
   loop u (p ++ q) a = loop u q (loop u p a).
 Proof. unfold loop. apply fold_left_app. Qed.
 
-(* the regenerated update IS the pruning step *)
-Lemma g_update_is_step (mats : nat -> mat) (a : nat -> vec) node lf rt :
-  g_update N mats a node lf rt = vmul N (matvec N (mats lf) (a lf)) (matvec N (mats rt) (a rt)).
-Proof. reflexivity. Qed.
+Section Generic.
+Context {A : Type}.
+Variable f : nat -> nat -> nat -> A -> A -> A.    (* node, left index, right index, left entry, right entry *)
+Variable update : (nat -> A) -> nat -> nat -> nat -> A.
+(* [Inv]: a property of the entries under which the update is the combination f (e.g. "one vector per rate
+   category"); it must hold of the tips and be preserved by f.  Take [fun _ => True] when none is needed. *)
+Variable Inv : A -> Prop.
+Hypothesis Hinv : forall node lf rt x y, Inv x -> Inv y -> Inv (f node lf rt x y).
+Hypothesis Hupd : forall a node lf rt, Inv (a lf) -> Inv (a rt) -> update a node lf rt = f node lf rt (a lf) (a rt).
 
-(* Invariant: running the loop over the post-order triples of t, from any array whose leaf entries are
-   the tip vectors, leaves prune(t) at t's index and touches nothing but t's internal nodes. *)
-Lemma loop_prune (mats : nat -> mat) (tip : nat -> vec) : forall t a,
+Fixpoint recf (tip : nat -> A) (t : itree) : A :=
+  match t with
+  | ILeaf i => tip i
+  | INode i l r => f i (iidx l) (iidx r) (recf tip l) (recf tip r)
+  end.
+
+Lemma recf_inv (tip : nat -> A) : (forall i, Inv (tip i)) -> forall t, Inv (recf tip t).
+Proof. intros Ht. induction t as [i|i l IHl r IHr]; cbn; [apply Ht | apply Hinv; assumption]. Qed.
+
+Lemma loop_recf (tip : nat -> A) (Htip : forall i, Inv (tip i)) : forall t a,
   wfi t -> (forall i, In i (ileaves t) -> a i = tip i) ->
-  let a' := loop (g_update N mats) (postorder t) a in
-  a' (iidx t) = prune N mats tip t /\ (forall j, ~ In j (iinternals t) -> a' j = a j).
+  let a' := loop update (postorder t) a in
+  a' (iidx t) = recf tip t /\ (forall j, ~ In j (iinternals t) -> a' j = a j).
 Proof.
   induction t as [i|i l IHl r IHr]; intros a Hw Hleaf.
   - cbn. split; [apply Hleaf; left; reflexivity | reflexivity].
@@ -92,24 +101,52 @@ Proof.
     destruct (wfi_node i l r Hw) as [Hwl [Hwr [Hil [Hir [Hill [Hilr [Hlr Hrl]]]]]]].
     specialize (IHl a Hwl). cbn zeta in IHl.
     destruct IHl as [Pl Ul]; [intros j Hj; apply Hleaf; cbn; apply in_or_app; left; exact Hj|].
-    set (a1 := loop (g_update N mats) (postorder l) a) in *.
+    set (a1 := loop update (postorder l) a) in *.
     specialize (IHr a1 Hwr). cbn zeta in IHr.
     destruct IHr as [Pr Ur].
     { intros j Hj. rewrite Ul.
       - apply Hleaf. cbn. apply in_or_app. right. exact Hj.
       - intro Hx. exact (proj2 (Hlr j Hx) Hj). }
-    set (a2 := loop (g_update N mats) (postorder r) a1) in *.
-    (* the left child's entry survives the right subtree *)
-    assert (Pl2 : a2 (iidx l) = prune N mats tip l).
+    set (a2 := loop update (postorder r) a1) in *.
+    assert (Pl2 : a2 (iidx l) = recf tip l).
     { rewrite Ur; [exact Pl|]. intro Hx.
       destruct (iidx_in l) as [Hy|Hy]; [exact (proj2 (Hrl _ Hx) Hy) | exact (proj1 (Hrl _ Hx) Hy)]. }
-    unfold loop at 1. cbn [fold_left]. split.
-    + unfold upd. rewrite Nat.eqb_refl. rewrite g_update_is_step. cbn [prune]. rewrite Pl2, Pr. reflexivity.
+    split.
+    + unfold loop. cbn [fold_left]. unfold upd. rewrite Nat.eqb_refl.
+      fold (loop update (postorder r) a1). fold a2.
+      rewrite Hupd by (rewrite ?Pl2, ?Pr; apply recf_inv; exact Htip).
+      cbn [recf]. rewrite Pl2, Pr. reflexivity.
     + intros j Hj. cbn [iinternals] in Hj. rewrite !in_app_iff in Hj.
       unfold loop. cbn [fold_left]. unfold upd. cbv beta. destruct (Nat.eqb j i) eqn:E.
       * apply Nat.eqb_eq in E. subst. exfalso. apply Hj. right. right. left. reflexivity.
-      * rewrite Ur by (intro Hx; apply Hj; right; left; exact Hx).
+      * fold (loop update (postorder r) a1). fold a2.
+        rewrite Ur by (intro Hx; apply Hj; right; left; exact Hx).
         apply Ul. intro Hx. apply Hj. left. exact Hx.
+Qed.
+End Generic.
+
+Section Loop.
+Context {T : Type} (N : Num T).
+
+(* the regenerated update IS the pruning step *)
+Lemma g_update_is_step (mats : nat -> mat) (a : nat -> vec) node lf rt :
+  g_update N mats a node lf rt = vmul N (matvec N (mats lf) (a lf)) (matvec N (mats rt) (a rt)).
+Proof. reflexivity. Qed.
+
+(* the structural recursion [prune] is the generic fold with the pruning step *)
+Lemma recf_is_prune (mats : nat -> mat) (tip : nat -> vec) t :
+  recf (fun _ lf rt x y => vmul N (matvec N (mats lf) x) (matvec N (mats rt) y)) tip t = prune N mats tip t.
+Proof. induction t as [i|i l IHl r IHr]; cbn; [reflexivity|]. rewrite IHl, IHr. reflexivity. Qed.
+
+Lemma loop_prune (mats : nat -> mat) (tip : nat -> vec) : forall t a,
+  wfi t -> (forall i, In i (ileaves t) -> a i = tip i) ->
+  let a' := loop (g_update N mats) (postorder t) a in
+  a' (iidx t) = prune N mats tip t /\ (forall j, ~ In j (iinternals t) -> a' j = a j).
+Proof.
+  intros t a Hw Hl. rewrite <- recf_is_prune.
+  apply (loop_recf (fun _ lf rt x y => vmul N (matvec N (mats lf) x) (matvec N (mats rt) y))
+                   (g_update N mats) (fun _ => True)); [auto | | auto | exact Hw | exact Hl].
+  intros. apply g_update_is_step.
 Qed.
 
 Theorem loop_computes_prune mats tip t a :
